@@ -358,6 +358,24 @@ class SessionSem(Semantics):
             for suf, vv in keep_m.items():
                 path.memo[dk + suf] = vv
             return [('next', path)]
+        # a record built by a local closure (`let record = || SessionRecordRef { state: .., ttl }; .. store.update(&id, record())`)
+        if short in ('core::ops::function::Fn::call', 'core::ops::function::FnMut::call_mut', 'core::ops::function::FnOnce::call_once') \
+                and dk is not None and 'SessionRecordRef' in body.locals[d['l']]:
+            kinds = set()
+            for cl in self.fb.bodies_of_item(body.crate, body.nroot):
+                if cl.nid == cl.nroot or cl.is_promoted or 'SessionRecordRef' not in cl.locals[0]:
+                    continue
+                for _, _, st in cl.all_assigns():
+                    rv = st['rv']
+                    if rv['k'] == 'agg' and rv.get('ak') == 'adt' and strip_generics(rv['adt']) == 'pavex_session::store_::SessionRecordRef':
+                        kinds.add('rec:state')
+                for _, t2 in cl.calls():
+                    if strip_generics(callee(t2) or '') == 'pavex_session::store_::SessionRecordRef::empty':
+                        kinds.add('rec:empty')
+            clear_dest()
+            if len(kinds) == 1:
+                path.tags[dk] = kinds.pop()
+            return [('next', path)]
         # --- the storage backend --------------------------------------------------------------------------------
         if short.startswith(STORE):
             meth = short[len(STORE):]
